@@ -66,10 +66,10 @@ pub fn judge(h: &History, recs: &[StepRec]) -> Result<(bool, bool), Failure> {
             last_n = None;
             continue;
         }
+        // a radio fault ends the transaction with an error: its response and the payload hand-over are
+        // not judged, but every frame that was handed to the device before the fault was decided, and
+        // the history goes on afterwards
         let faulted = r.trace.iter().any(|e| matches!(e, Ev::Fault(_)));
-        if faulted {
-            return Ok((any_accept, any_fresh_reject));
-        }
         // model: counter after this transaction
         let mut model_last = r.deliveries.first().map(|d| d.last_before).unwrap_or(None);
         let mut have_model = !r.deliveries.is_empty();
@@ -129,6 +129,9 @@ pub fn judge(h: &History, recs: &[StepRec]) -> Result<(bool, bool), Failure> {
             have_model = false;
         }
         let _ = have_model;
+        if faulted {
+            continue;
+        }
         // response of the transaction
         if let Some(n) = class_a_accept {
             let ok = match &r.outcome {
